@@ -6,6 +6,7 @@ import StimModel.Core.Formats
 import StimModel.Core.Bits
 import StimModel.Model.Counts
 import StimModel.Model.Algebra
+import StimModel.Model.FSim
 /-! Line-protocol dispatcher: one request line in, one answer line out. -/
 namespace Stim.Driver
 open Stim Stim.Wire
@@ -466,6 +467,94 @@ def algCmd (toks : List String) : String :=
      | _, _, _, _ => "bad-request")
   | _ => "bad-request"
 
+def xorBits (a b : List Bool) : List Bool := List.zipWith (· != ·) a b
+
+/-- `fsim shots <circuit> <sweep|-> <k> (<m> <det> <obs>)*` : per-shot checks of the bulk samplers (C02, C04).
+    For each shot: (1) measurement flips relative to the Lean reference sample lie in the affine space spanned by the
+    circuit's fault columns (noise sites with p>0, gauge Paulis), offset by the certain faults and the sweep bits;
+    (2) detector bits are the declared parities of those flips; (3) observable bits likewise (record targets only).
+    Answer: `ok rank=<r>` or the first failing shot. -/
+def fsimShots (toks : List String) : String :=
+  match parseCircuit toks with
+  | some (c, sw :: refS :: kS :: rest) =>
+    let sweep := bitsOf sw
+    match kS.toNat? with
+    | none => "bad-request"
+    | some k =>
+      if rest.length != 3 * k then "bad-request" else
+      -- the reference sample the implementation used must itself be a possible noiseless record; detection events are
+      -- defined relative to it
+      let refRun := if refS == "-" then runCircuit c (.bias false) else runCircuit c (.follow (bitsOf refS))
+      match refRun.err with
+      | some e => "err " ++ e
+      | none =>
+      if !refRun.ok then "reference-sample-impossible" else
+      let ref := refRun.record
+      let (cols, _, certain) := faultColumns c
+      let basis := gfSpan cols
+      let offset := (certainRun c sweep certain).flips
+      let rec go : Nat → List String → List (List Bool) → String
+        | _, [], seen =>
+          -- every direction the circuit allows should be taken by some shot when there are many shots
+          let r := (gfSpan seen).length
+          -- With many shots every direction the circuit allows must have been taken (each column fires independently with
+          -- probability >= 1/4).  Only enforced when the column set is exact (no disjoint / heralded / correlated channels).
+          let exact := !(c.unroll.any fun | .instr g _ _ _ => g == "PAULI_CHANNEL_1" || g == "PAULI_CHANNEL_2" || g == "E"
+                                              || g == "ELSE_CORRELATED_ERROR" || g == "HERALDED_ERASE" || g == "HERALDED_PAULI_CHANNEL_1"
+                                            | _ => false)
+          if exact && k ≥ 257 && basis.length ≤ 10 && r < basis.length then s!"directions-never-taken dim={basis.length} seen={r}"
+          else s!"ok dim={basis.length} seen={r}"
+        | i, m :: d :: o :: more, seen =>
+          let mb := bitsOf m
+          if mb.length != ref.length then s!"shot {i} record-length {mb.length} vs {ref.length}" else
+          let flips := xorBits mb ref
+          let rel := xorBits flips (offset ++ List.replicate (flips.length - offset.length) false)
+          if !(gfMember basis rel) then s!"shot {i} impossible-record" else
+          let (dets, obs, pobs) := parities c flips
+          let db := bitsOf d
+          if d != "*" && db != dets then s!"shot {i} detectors {strOfBits dets}" else
+          let ob := bitsOf o
+          let badObs := obs.any fun (idx, v) => !(pobs.contains idx) && ob.getD idx false != v
+          if o != "*" && badObs then s!"shot {i} observables" else
+          go (i + 1) more (rel :: seen)
+        | i, _, _ => s!"bad-request at {i}"
+      go 0 rest []
+  | _ => "bad-request"
+
+/-- `fsim m2d <circuit> <skipref> <k> (<m> <sweep> <out>)*` : measurements_to_detection_events with appended observables.
+    Expected: parities of  m ⊕ reference ⊕ (flips the sweep bits cause in a noiseless run)  — reference all-zero when skipped. -/
+def fsimM2d (toks : List String) : String :=
+  match parseCircuit toks with
+  | some (c, skip :: refS :: kS :: rest) =>
+    match kS.toNat? with
+    | none => "bad-request"
+    | some k =>
+      if rest.length != 3 * k then "bad-request" else
+      let refRun := if refS == "-" then runCircuit c (.bias false) else runCircuit c (.follow (bitsOf refS))
+      match refRun.err with
+      | some e => "err " ++ e
+      | none =>
+      if !refRun.ok then "reference-sample-impossible" else
+      let nd := (parities c []).1.length
+      -- a parity that is not deterministic in the noiseless circuit has no unique "noiseless execution" to be compared with
+      let (detOk, obsOk) := deterministicMask c
+      let ref := if skip == "1" then refRun.record.map (fun _ => false) else refRun.record
+      let rec go : Nat → List String → String
+        | _, [] => "ok"
+        | i, m :: sw :: o :: more =>
+          let mb := bitsOf m
+          if mb.length != ref.length then s!"shot {i} record-length" else
+          let sf := (certainRun c (bitsOf sw) []).flips
+          let eff := xorBits (xorBits mb ref) (sf ++ List.replicate (mb.length - sf.length) false)
+          let (dets, obs, _) := parities c eff
+          let ob := bitsOf o
+          if ((dets.zip (ob.take nd)).zip detOk).any (fun ((a, b), okk) => okk && a != b) then s!"shot {i} detectors {strOfBits dets}"
+          else if obs.any (fun (idx, v) => (obsOk.find? (·.1 == idx)).map (·.2) == some true && ob.getD (nd + idx) false != v) then s!"shot {i} observables"
+          else go (i + 1) more
+        | i, _ => s!"bad-request at {i}"
+      go 0 rest
+  | _ => "bad-request"
+
 def answer (toks : List String) : String :=
   match toks with
   | "tsim" :: "check" :: rest => tsimCheck rest
@@ -475,6 +564,8 @@ def answer (toks : List String) : String :=
   | "fmt" :: rest => fmtCmd rest
   | "bits" :: rest => bitsCmd rest
   | "alg" :: rest => algCmd rest
+  | "fsim" :: "shots" :: rest => fsimShots rest
+  | "fsim" :: "m2d" :: rest => fsimM2d rest
   | "circ" :: "counts" :: rest => circCounts rest
   | "circ" :: "shift" :: rest => circShift rest
   | "circ" :: "detcoords" :: rest => circDetCoords rest
